@@ -341,6 +341,25 @@ func (w *World) Exec(n int, st *Step) *Obs {
 	case "app_session_put":
 		br.Session[st.str("key")] = st.str("val")
 		return w.finishNonHTTP(o)
+	case "mangle_stamp":
+		// the session store hands the activity stamp back damaged
+		if v, ok := br.Session["last_action"]; ok {
+			switch st.str("how") {
+			case "truncate":
+				if len(v) > 10 {
+					v = v[:10]
+				}
+			case "empty":
+				v = ""
+			case "unix":
+				v = "1700000000"
+			default:
+				v = "not-a-date"
+			}
+			br.Session["last_action"] = v
+			w.Stats.Reach["stamp_mangled"]++
+		}
+		return w.finishNonHTTP(o)
 
 	case "login":
 		path = mp("/login")
